@@ -332,6 +332,10 @@ func c15Case(fnS, opts, ret string) *hcase {
 			if err != nil {
 				return nil, "err:" + classifyCheckErr(err)
 			}
+			// settings may be changed any number of times before Wrap: the last one counts
+			preStrict := map[byte]byte{'u': 'u', 't': 'f', 'f': 't'}
+			preArray := map[byte]byte{'u': 'u', 't': 'f', 'f': 't'}
+			applyOpts(fi, string([]byte{preStrict[opts[0]], preArray[opts[1]]}))
 			applyOpts(fi, opts)
 			h := fi.Wrap()
 			// the handler is fixed by the settings at the time of Wrap: changing them on the same FuncInfo
